@@ -50,7 +50,7 @@ BINOP_RAISES = {
     ast.Add: TE, ast.Sub: TE, ast.Mult: TE, ast.MatMult: TE,
     ast.Div: ("TypeError", "ZeroDivisionError"),
     ast.FloorDiv: ("TypeError", "ZeroDivisionError"),
-    ast.Mod: ("TypeError", "ZeroDivisionError", "ValueError", "OverflowError"),   # str % x is formatting: '%c' % 1114112 -> OverflowError
+    ast.Mod: ("TypeError", "ZeroDivisionError", "ValueError", "OverflowError", "KeyError", "MemoryError"),   # str % x is printf formatting
     ast.Pow: ("TypeError", "ZeroDivisionError"),
     ast.LShift: ("TypeError", "ValueError"), ast.RShift: ("TypeError", "ValueError"),
     ast.BitOr: TE, ast.BitAnd: TE, ast.BitXor: TE,
@@ -71,7 +71,8 @@ OP_TABLE_DOC = [
     ("T in <list/tuple of clean values>, passing T unchanged", []),
     ("<, >, <=, >=, unary -/+/~, +, -, *, abs, len, range, sum, set/list/tuple/sorted/iter/zip/enumerate(T), for .. in T, x in T, T in <dict/set/str>, T(...), isinstance(x, T), hashing T", ["TypeError"]),
     ("/, //, **", ["TypeError", "ZeroDivisionError"]),
-    ("% (includes str % x, i.e. printf-style formatting of an input string)", ["TypeError", "ZeroDivisionError", "ValueError", "OverflowError"]),
+    ("T % x, x % T with T not known not to be a str (`str % x` is printf-style formatting: bad format, '%c' out of range, '%(k)s' with a mapping, '%9999999999d')", ["TypeError", "ZeroDivisionError", "ValueError", "OverflowError", "KeyError", "MemoryError"]),
+    ("T % x with T known not to be a str (after `isinstance(T, str)` was excluded)", ["TypeError", "ZeroDivisionError"]),
     ("int(T), float(T)", ["TypeError", "ValueError"]),
     ("int(T:str), float(T:str)", ["ValueError"]),
     ("int(x) for a float x derived from the input (float(T:str) may be inf / nan)", ["OverflowError", "ValueError"]),
